@@ -28,6 +28,7 @@ RULE = ("(1) enumerated: parameter grid min runtime 0..4 x min downtime 0..4 x i
         "transition); (2)/(3) pattern or solution contains a transition and a ramp, runtime or downtime limit is "
         "binding or violated by the candidate. Distinct = distinct spec hash.")
 RULE += (" In a third of the cases with profiles the profiles are re-expressed in another ramp_freq: finer (k values per grid step whose mean is the step value), coarser (constant profiles lasting k grid steps per value) or an alias of the grid frequency ('60min' for 'h'); the oracle keeps speaking about grid steps.")
+RULE += (' Start profiles of up to 4 steps; in half of the cases with a start profile of 3-4 steps the horizon begins inside it (unit started one step before).')
 ASSUMPTIONS = ["durations are drawn at half-step offsets so EAO's ceil() conversion to steps is unambiguous",
                "start/shutdown profiles monotone, exact (upper omitted or equal) or a band [lower, upper], as lists or float arrays; uniform step length; ramp_freq = grid freq",
                "heat bounds of a profile step are read as in the docstring (bounds of the heat dispatch in that step); in the pinned-point part a candidate "
